@@ -15,7 +15,7 @@ git apply seed_patch.diff
 S=/var/tmp/pd-seed-$ID; rm -rf $S; cp -r /repo $S; git -C $S apply $OUT/patch.diff || { echo "patch does not apply to /repo copy"; rm -rf $S; exit 2; }
 cd /verif; RES=""
 for c in $CHECKS; do
-  VERIF_REPO=$S VERIF_BUILD=/verif/build/seed_$ID ./check $c > $OUT/check_$c.txt 2>&1; rc=$?
+  VERIF_REPO=$S VERIF_BUILD=/verif/build/seed_$ID VERIF_EVIDENCE=$OUT/evidence VERIF_REPLAYS=$OUT/replays ./check $c > $OUT/check_$c.txt 2>&1; rc=$?
   nv=$(grep -c "^VIOLATION" $OUT/check_$c.txt); nf=$(grep -c "no-failing-input-found" $OUT/check_$c.txt)
   RES="$RES{\"check\":\"$c\",\"exit\":$rc,\"violation_lines\":$nv,\"without_failing_input\":$nf},"
 done
